@@ -248,7 +248,7 @@ def cases(tier, seed):
         out.append({"k": "u3", "i0": i0, "i1": min(n3, i0 + 24)})
     nv = len(coefficient_variants())
     for i0 in range(0, nv, 30):
-        out.append({"k": "coef", "i0": i0, "i1": min(nv, i0 + 30)})
+        out.append({"k": "coef", "i0": i0, "i1": min(nv, i0 + 30), "tier": tier})
     for shape in [(1,), (3,), (2, 2), (2, 1, 3), (12,)]:
         out.append({"k": "arrays", "s": list(shape)})
     out.append({"k": "names"})
@@ -273,7 +273,8 @@ def run_case(case, R):
     elif k == "coef":
         for label, sp in coefficient_variants()[case["i0"]:case["i1"]]:
             R.state(("coef", label))
-            render_and_check(R, sp, label, DISPLAY[::3] + [DISPLAY[1]], SIGNS[:3], ["0-d", "coef=" + sp["d"]])
+            full = case.get("tier") == "thorough"
+            render_and_check(R, sp, label, DISPLAY if full else DISPLAY[::3] + [DISPLAY[1]], SIGNS if full else SIGNS[:3], ["0-d", "coef=" + sp["d"]])
     elif k == "arrays":
         shape = tuple(case["s"])
         R.state(("arrays", shape))
